@@ -42,6 +42,12 @@ func checkC01(c *Ctx) {
 	c.whoMayCall("C01.1", updCB, "ViewStates.UpdateCommittedBlock", "(*hs/protocol/consensus.Committer).commitInner")
 	c.whoMayWrite("C01.1", p.Field("protocol", "ViewStates", "committedBlock"), "ViewStates.committedBlock", "(*hs/protocol.ViewStates).UpdateCommittedBlock")
 
+	// C01.6 structural preconditions of cross-replica agreement, decided under their own properties and re-listed here:
+	// what an honest replica votes for (C03.5/C03.6), the vote/lock/commit decision tables (C04.1), the QC view binding (C02.3)
+	c.importFrom(checkC03, "C01.6", "C03.5", "C03.6")
+	c.importFrom(checkC04, "C01.6", "C04.1")
+	c.importFrom(checkC02, "C01.6", "C02.1", "C02.3")
+
 	if commitInner == nil || commit == nil || tryCommit == nil {
 		c.Unresolved("C01.2", "Committer", "anchor missing")
 		return
